@@ -223,7 +223,7 @@ func (b *Body) rejects(start *ssa.BasicBlock) bool {
 				ok = false
 				return
 			}
-			r := t.Results[len(t.Results)-1]
+			r := retVal(t, len(t.Results)-1)
 			if !isErrorType(r.Type()) || !b.definitelyNonNilErr(r, bb, 0) {
 				ok = false
 				return
